@@ -306,6 +306,61 @@ def desugar_loops(data):
     return n
 
 
+def _pat_binds(p):
+    out = []
+    stack = [p]
+    while stack:
+        y = stack.pop()
+        if isinstance(y, dict):
+            if y.get("k") == "PIdent" and y.get("name") and y["name"][:1].islower():
+                out.append(y)
+            stack.extend(v for v in y.values() if isinstance(v, (dict, list)))
+        elif isinstance(y, list):
+            stack.extend(y)
+    return out
+
+
+def desugar_match_letelse(data):
+    """In place: `let v = match E { P(b) => b, _ => <diverges> };` is `let P(v) = E else { <diverges> };` -- the two spellings of `take
+    the payload or leave`.  Only when the kept arm's value is exactly one of its own bindings, it has no guard, and the other arm's
+    pattern binds nothing (`_`, `None`, a unit variant, an or-pattern of those).  Returns the number rewritten."""
+    n = 0
+    for x in list(A.walk(data)) if isinstance(data, dict) and "k" in data else [y for c in data.values() for y in A.walk(c)]:
+        if x.get("k") != "Local" or x.get("else") is not None or not isinstance(x.get("init"), dict) or x["init"].get("k") != "Match" or len(x["init"].get("arms", [])) != 2:
+            continue
+        pat = x["pat"]
+        ty = None
+        if pat.get("k") == "PType":
+            continue
+        if pat.get("k") != "PIdent" or pat.get("sub") is not None:
+            continue
+        arms = x["init"]["arms"]
+        div = [a for a in arms if A.diverges(a["body"]) and a.get("guard") is None and not _pat_binds(a["pat"])]
+        if len(div) != 1:
+            continue
+        keep = [a for a in arms if a is not div[0]][0]
+        if keep.get("guard") is not None or A.diverges(keep["body"]):
+            continue
+        body = keep["body"]
+        while body.get("k") == "Block" and len(body.get("stmts", [])) == 1 and body["stmts"][0].get("k") == "ExprStmt" and not body["stmts"][0].get("semi"):
+            body = body["stmts"][0]["expr"]
+        binds = _pat_binds(keep["pat"])
+        if body.get("k") != "Path" or "::" in body["path"] or sum(1 for b in binds if b["name"] == body["path"]) != 1 or keep["pat"].get("k") == "POr":
+            continue
+        b = [b for b in binds if b["name"] == body["path"]][0]
+        b["name"] = pat["name"]
+        b["mut"] = bool(pat.get("mut")) or bool(b.get("mut"))
+        # a shorthand field pattern `Struct { cmd, .. }` that now binds another name is `Struct { cmd: v, .. }`
+        for y in A.walk(keep["pat"]):
+            if y.get("k") == "PField" and y.get("pat") is b:
+                y["shorthand"] = False
+        x["pat"] = keep["pat"]
+        x["else"] = _as_block(div[0]["body"])
+        x["init"] = x["init"]["scrut"]
+        n += 1
+    return n
+
+
 def desugar_filter_loops(data):
     """In place: `for x in it.filter(|p| C) { B }` becomes `for x in it { if !({ let p = &x; C }) { continue; } B }` (just `!(C)` when
     the closure's parameter has the loop variable's name), so that a loop that passes over some elements reads the same whether the
